@@ -242,6 +242,8 @@ static int ims_load(struct module_data *m, HIO_HANDLE *f, const int start)
 
 	for (j = 0; j < 0x100; j++) {
 	    event = &EVENT (i, j & 0x3, j >> 2);
+	    /* a truncated pattern yields empty events, never stack contents */
+	    memset(ims_event, 0, 3);
 	    hio_read(ims_event, 1, 3, f);
 
 	    /* Event format:
